@@ -359,6 +359,57 @@ def server_fault_site(run_once):
     return found[-1] if found else 'unknown'
 
 
+PROBE = '''
+import io, sys, logging
+sys.path.insert(0, %(verif)r)
+from harness import core
+core.use_repo()
+logging.disable(logging.CRITICAL)
+from harness.checks import c10
+from spyne.server.wsgi import WsgiApplication
+fam = [f for f in c10.families() if f.name == %(fam)r][0]
+w = WsgiApplication(c10.mkapp(fam.mk_in(validator='soft'), fam.mk_out()))
+body = %(body)s
+env = {'REQUEST_METHOD': 'POST', 'PATH_INFO': '/', 'QUERY_STRING': '', 'CONTENT_TYPE': fam.ctype, 'wsgi.input': io.BytesIO(body),
+       'wsgi.url_scheme': 'http', 'SERVER_NAME': 'x', 'SERVER_PORT': '80', 'CONTENT_LENGTH': str(len(body))}
+st = []
+try:
+    b''.join(w(env, lambda s, h, e=None: st.append(s)))
+    print('STATUS', st[0])
+except BaseException as e:
+    print('ESCAPE', type(e).__name__)
+'''
+
+
+def process_probes(ctx):
+    """Requests that may take the whole PROCESS down run in a child process each; a death by signal is a crash."""
+    import subprocess
+    from .. import core
+    n = 0
+    for fam, label, body in [('yaml', 'deep[100000', "b'[' * 100000"), ('yaml', 'deep{100000', "b'{a: ' * 100000"),
+                             ('yaml_w', 'deep[100000', "b'[' * 100000"),
+                             ('json', 'deep[1000000', "b'[' * 1000000"), ('msgpack', 'deep[1000000', "b'\\x91' * 1000000"),
+                             ('xml', 'deep<1000000', "b'<a>' * 1000000"), ('soap11', 'deep<1000000', "b'<a>' * 1000000")]:
+        code = PROBE % {'verif': core.VERIF, 'fam': fam, 'body': body}
+        p = subprocess.run([sys.executable, '-c', code], stdout=subprocess.PIPE, stderr=subprocess.PIPE, timeout=600,
+                           env=dict(os.environ, PYTHONHASHSEED='0'))
+        n += 1
+        out = p.stdout.decode('utf8', 'replace').strip().splitlines()
+        last = out[-1] if out else ''
+        if p.returncode < 0:
+            ctx.violation('process-crash|signal=%d|fam=%s|deep-nesting' % (-p.returncode, fam.split('_')[0]),
+                          'the server PROCESS died of signal %d while handling %s (%s)' % (-p.returncode, label, fam),
+                          {'family': fam, 'mutation': label, 'stderr': p.stderr.decode('utf8', 'replace')[-400:]})
+        elif last.startswith('ESCAPE'):
+            ctx.violation('escape|%s|process-probe|fam=%s' % (last.split()[1], fam), 'exception %s escaped while handling %s (%s)' % (last, label, fam),
+                          {'family': fam, 'mutation': label})
+        elif not last.startswith('STATUS 4') and not (fam.startswith('soap') and last.startswith('STATUS 500')):
+            ctx.violation('outcome|process-probe|fam=%s|%s' % (fam, last[:20]), 'unexpected outcome %r for %s (%s)' % (last, label, fam),
+                          {'family': fam, 'mutation': label, 'rc': p.returncode, 'stderr': p.stderr.decode('utf8', 'replace')[-400:]})
+    ctx.cov_add(process_probes=n)
+    return n
+
+
 def run(ctx):
     from spyne.server.wsgi import WsgiApplication
     from spyne.server import ServerBase
@@ -448,6 +499,7 @@ def run(ctx):
         ctx.violation(key, '%s [%s/%s/%s %s]' % (what, fam.name, val, tr, label),
                       {'family': fam.name, 'validator': val, 'transport': tr, 'mutation': label,
                        'body': body[:600].decode('latin1'), 'env': envx, 'k': k, 'history': recs[i]['obs']})
+    ncrash = process_probes(ctx)
     labels = set((m[0].name, m[2]) for m in meta)
     ctx.cov_add(traces_validated_against_impl=len(recs) - len(fails), evaluations=len(recs),
                 distinct_nontrivial=len(labels), exhaustive=True,
